@@ -37,6 +37,7 @@ OPS = [
     ("reterr", re.compile(r"\breturn err$"), "return nil"),
     ("plus1", re.compile(r"\b([2-9]|[1-9][0-9]+)\b(?! \* time|\.)"), None),
 ]
+ONLY_OPS = set(filter(None, os.environ.get("MUTATE_OPS", "").split(",")))
 DELETABLE = re.compile(r"^\s*(defer\s+)?[A-Za-z_][\w.\[\]]*(Unlock|RUnlock|Lock|Stop|Close|Delete|Store|cancel|unblockWaiters|close|delete|removeCertificate|Wait|Done)\w*\(.*\)\s*$")
 
 def in_func_lines(src):
@@ -71,8 +72,18 @@ def gen(file, src, rng):
                 else:
                     new = code[:m.start()] + rep + code[m.end():]
                 ms.append({"file": file, "line": i + 1, "op": name, "old": l.rstrip("\n"), "new": new})
+        # swap with the next line: two simple statements of the same indentation (a call or an assignment each)
+        if i + 1 < len(src):
+            nxt = src[i + 1].split("//")[0].rstrip()
+            simple = lambda c: bool(re.match(r"^\s*[A-Za-z_][\w.\[\]\(\), ]*(\(.*\)|\s*(:=|=|\+=|-=)\s*.+)$", c)) and not re.match(r"^\s*(if|for|switch|select|case|return|go|defer|func|var|const|type)\b", c) and not c.rstrip().endswith("{")
+            ind = lambda c: len(c) - len(c.lstrip())
+            if "swap" in ONLY_OPS or not ONLY_OPS:
+                if simple(code) and simple(nxt) and ind(code) == ind(nxt) and code.strip() != nxt.strip():
+                    ms.append({"file": file, "line": i + 1, "op": "swap", "old": l.rstrip("\n"), "new": src[i + 1].rstrip("\n"), "old2": src[i + 1].rstrip("\n"), "new2": l.rstrip("\n")})
         if DELETABLE.match(code):
             ms.append({"file": file, "line": i + 1, "op": "del", "old": l.rstrip("\n"), "new": re.match(r"^\s*", l).group(0) + "// (deleted)"})
+    if ONLY_OPS:
+        ms = [m for m in ms if m["op"] in ONLY_OPS]
     rng.shuffle(ms)
     return ms
 
@@ -93,6 +104,10 @@ def run_mutant(w, m, props):
     if src[m["line"] - 1].rstrip() != m["old"].rstrip():
         return dict(m, result="stale")
     src[m["line"] - 1] = m["new"]
+    if "new2" in m:
+        if src[m["line"]].rstrip() != m["old2"].rstrip():
+            return dict(m, result="stale")
+        src[m["line"]] = m["new2"]
     open(path, "w").write("\n".join(src))
     try:
         b = sh(["go", "build", "./..."], cwd=w.dir, env=dict(os.environ, GOFLAGS="-mod=mod", GOPROXY="off"))
